@@ -876,10 +876,10 @@ func (c *Ctx) failerRule(rule string) {
 		c.bad(rule, construct, c.ipos(send), "the failure answer does not carry the temporary-connection error code (retry-tagged calls would not retry; untagged ones would not see the connection error)")
 	}
 	// reset in the same critical section
-	var reset *ssa.Store
-	for _, u := range usesOfKind(p.uses(r.FInflight), "store") {
+	var reset ssa.Instruction
+	for _, u := range usesOfKind(p.uses(r.FInflight), "store", "clear") {
 		if !c.isConstruction(u) && p.inCone(f, u.At) {
-			reset = u.At.(*ssa.Store)
+			reset = u.At
 		}
 	}
 	if reset == nil {
@@ -895,11 +895,11 @@ func (c *Ctx) failerRule(rule string) {
 			id, op := p.lockOp(ci)
 			return op == -1 && held[id]
 		}
-		if len(held) == 0 || reachFrom(rng, func(in ssa.Instruction) bool { return in == ssa.Instruction(reset) }, unlock) == nil {
+		if len(held) == 0 || reachFrom(rng, func(in ssa.Instruction) bool { return in == reset }, unlock) == nil {
 			okAll = false
 			c.bad(rule, construct, c.ipos(reset), "answering the entries and emptying the table are not one critical section")
 		}
-		if !c.allOrigins(reset.Val, func(a apath) bool { _, ok := a.Root.(*ssa.MakeMap); return ok && len(a.Fields) == 0 }) {
+		if rst, isStore := reset.(*ssa.Store); isStore && !c.allOrigins(rst.Val, func(a apath) bool { _, ok := a.Root.(*ssa.MakeMap); return ok && len(a.Fields) == 0 }) {
 			okAll = false
 			c.bad(rule, construct, c.ipos(reset), "the table is not replaced by an empty map")
 		}
